@@ -399,6 +399,21 @@ example : run (withFacts { Facts.good with writerBeforeGuard := false }) init
 example : (run (withFacts { Facts.good with abortOnDrop := false }) init (hooksOk ++ [.abort])).map
     (fun s => (s.phase, s.writer)) = some (.done, .signalled) := by decide
 
+/-! ### one identity per connection, hooks in registration order -/
+
+/-- **Distinct identities.**  Connections accepted concurrently get pairwise distinct `PeerId`s: the id is
+one atomic `fetch_add` on the shared counter (re-extracted from the source), so "exactly once per
+accepted connection" is exactly once per id, and a registry entry belongs to one live connection. -/
+theorem concurrent_accepts_get_distinct_ids :
+    Gen.Lifecycle.peerIdFetchAdd = true ∧ ∀ c n, (mintIds c n).Nodup ∧ (mintIds c n).length = n :=
+  ⟨by decide, fun c n => ⟨by simp [mintIds, List.nodup_range'], by simp [mintIds]⟩⟩
+
+/-- **Registration order.**  Every registrar appends to its chain and `with_peer_registry` goes through
+the ordinary registrars (re-extracted), so the model's hook index is the registration index: a callback
+registered before `with_peer_registry` runs before the registry's insert / remove, one registered after
+it runs after (the driver and the harness place `with_peer_registry` at every position). -/
+theorem hooks_run_in_registration_order : Gen.Lifecycle.hooksInRegistrationOrder = true := by decide
+
 /-! ### which handshakes are accepted: `normalize_path` + `WebSocketPathValidator` -/
 
 /-- The model of the path check and of the error report is the code's: the validator answers `Ok` exactly
